@@ -295,7 +295,11 @@ def replay(model, seed, case, inst):
     qt, axis = qtypes[inst["qtype"]], inst["axis"]
     x = torch.randn(3, 4) if case != "split-size" else torch.randn(10, 6)
     qa = Q(x, qt, axis)
+    x3 = torch.randn(2, 3, 4)
+    q3 = Q(x3, qt, axis)
     progs = {
+        "transpose-3d-01": lambda: [q3.transpose(0, 1)], "transpose-3d-12": lambda: [q3.transpose(1, 2)], "transpose-3d-neg": lambda: [q3.transpose(-1, -2)],
+        "transpose-3d-negfirst": lambda: [q3.transpose(-3, 1)], "permute-3d": lambda: [q3.permute(1, 0, 2)],
         "split-size": lambda: torch.split(qa, 4), "split-sizes": lambda: torch.split(qa, [1, 2]) if x.shape[0] == 3 else torch.split(qa, [4, 6]),
         "mul-q-1elem-tensor": lambda: [qa * torch.full((1, 1, 1), 0.5)], "mul-q-0dim-tensor": lambda: [qa * torch.tensor(0.5)],
         "transpose": lambda: [qa.transpose(0, 1)], "t-2d": lambda: [qa.t()], "permute": lambda: [qa.permute(1, 0)], "select": lambda: [qa.select(0, 0)],
